@@ -32,6 +32,36 @@ PLANT_COSTS = {5: ['Absorption Chiller Capital Cost', 'Absorption Chiller O&M Co
                7: ['Peaking Fuel Cost Rate', 'District Heating Piping Cost Rate', 'Total District Heating Network Cost', 'District Heating O&M Cost']}
 
 
+_DEFAULTS = None
+
+
+def declared_defaults() -> dict:
+    """Declared default of every laddered cost input (read from the live parameter objects): a default inside the range is a rung too -
+    a figure the user writes is the figure used, also when it happens to equal the default."""
+    global _DEFAULTS
+    if _DEFAULTS is None:
+        _DEFAULTS = {}
+        try:
+            from .c07 import build, params_of
+            m = build('End-Use Option, 2\nPower Plant Type, 7\nPrint Output to Console, 0\n', read=False)
+            for mod, p in params_of(m):
+                nm = p.Name.strip() if hasattr(p, 'Name') else None
+                if nm in COST_PARAMS and isinstance(getattr(p, 'DefaultValue', None), (int, float)):
+                    _DEFAULTS[nm] = float(p.DefaultValue)
+        except BaseException:  # noqa: BLE001
+            pass
+    return _DEFAULTS
+
+
+def rungs_for(rng, name, k=5) -> list:
+    lo, hi = RANGE[name]
+    vals = set(ladder_values(rng, lo, hi, k)) | {float(lo), float(hi)}
+    d = declared_defaults().get(name)
+    if d is not None and lo <= d <= hi:
+        vals.add(d)
+    return sorted(vals)
+
+
 def ladder_values(rng, lo, hi, k=5):
     return sorted({round(rng.uniform(lo, hi), 6) for _ in range(k)})
 
@@ -120,7 +150,7 @@ def run(tier: str) -> int:
         for name in names:
             lo, hi = RANGE[name]
             # the ends of the range are rungs too: 0 is a legitimate user-supplied cost, not the "not provided" sentinel
-            vals = sorted(set(ladder_values(rng, lo, hi)) | {float(lo), float(hi)})
+            vals = rungs_for(rng, name)
             rungs = [(x, with_param(p, name, x)) for x in vals]
             meta = {'parameter': name, 'base': tag}
             if 'Surface Plant Capital Cost' in p or 'Total Capital Cost' in p:
@@ -136,7 +166,7 @@ def run(tier: str) -> int:
         for name in PLANT_COSTS[plant]:
             p.pop(name, None)
             lo, hi = RANGE[name]
-            vals = sorted(set(ladder_values(rng, lo, hi, 3)) | {float(lo), float(hi)} | {round(lo + (hi - lo) * 0.01, 6)})
+            vals = sorted(set(rungs_for(rng, name, 3)) | {round(lo + (hi - lo) * 0.01, 6)})
             rungs = [(x, with_param(p, name, x)) for x in vals]
             L.add('C18_npv_cost', 'nonincreasing', lambda r: r['out']['npv'], rungs, {'parameter': name, 'base': f'plant{plant}#{k}'})
             L.add('C18_lc_cost', 'nondecreasing', lambda r: [r['out']['lcoe'], r['out']['lcoh'], r['out']['lcoc']], rungs,
